@@ -3,7 +3,7 @@
    Avro varint / OCF block layer, Arrow IPC node/buffer cursors).  The models are tied to arrow-rs by the
    correspondence run (probes c08.thrift_meta, c08.schema_probe, c08.avro_longs, c08.ipc_batch). *)
 From Coq Require Import List NArith ZArith Bool.
-From AV Require Import Model.C08_Thrift Model.C08_Avro Model.C08_Ipc.
+From AV Require Import Base.Bytes Model.C08_Thrift Model.C08_Avro Model.C08_Ipc.
 From AV Require Import Proofs.C08_Thrift Proofs.C08_Vlq Proofs.C08_Avro Proofs.C08_Ipc.
 Import ListNotations.
 
@@ -100,6 +100,20 @@ Theorem avro_vlq_bounded : forall bs,
   forall z r, vlq_long bs 0 0 = VVal z r -> (length r < length bs /\ length bs - length r <= 10)%nat.
 Proof. intros bs. split; [apply vlq_long_start_no_panic|apply vlq_long_start_progress]. Qed.
 Print Assumptions avro_vlq_bounded.
+
+(* read_varint (AvroCursor): the one-byte fast path, the 10-byte array path (additive accumulation with the continuation
+   bits subtracted) and the slow path all compute the bounded ULEB128 specification, and report the bytes consumed *)
+Theorem avro_read_varint_is_spec : forall bs, wf_bytes bs ->
+  read_varint bs = match varint_spec bs with
+                   | Some (v, r) => Some (v, N.of_nat (length bs - length r))
+                   | None => None end.
+Proof. exact read_varint_spec. Qed.
+Print Assumptions avro_read_varint_is_spec.
+
+Theorem varint_spec_decode_encode : forall n rest,
+  (n < 2^64)%N -> varint_spec (uleb_enc 10 n ++ rest) = Some (n, rest).
+Proof. exact varint_spec_enc. Qed.
+Print Assumptions varint_spec_decode_encode.
 
 (* block count / size sign rules and progress of the block decoder *)
 Theorem avro_block_guards : forall bs c d s rest,
